@@ -19,6 +19,10 @@ use std::{
     str::FromStr,
 };
 
+mod gen {
+    include!("c18_gen.rs");
+}
+
 type RefPeerId = multiaddr::PeerId; // = libp2p_identity::PeerId
 type Multihash = multihash::Multihash<64>;
 
@@ -1314,7 +1318,14 @@ fn systematic_cases(rng: &mut Rng) -> Vec<Vec<u64>> {
         out.push(mk_blob_case(&rand_bytes(rng, l)));
     }
     let key = keypair_of(&random_secret(rng)).unwrap().public().to_bytes().to_vec();
-    for t in [0u64, 1, 2, 3, 4, 5, 127, 128, (1 << 31) - 1, 1 << 31, 1 << 32, (1 << 32) + 1, (1 << 32) + 2, u64::MAX] {
+    // every entry of keys.proto's KeyType (table extracted from the source), the two numbers after the
+    // last one, and the values whose `as i32` truncation lands inside / outside the enum
+    let mut types: Vec<u64> = gen::KEY_TYPE_NUMBERS.to_vec();
+    let top = types.iter().copied().max().unwrap_or(0);
+    types.extend([top + 1, top + 2, 127, 128, (1 << 31) - 1, 1 << 31, u64::MAX]);
+    types.extend(gen::KEY_TYPE_NUMBERS.iter().map(|t| (1u64 << 32) + t));
+    types.push((1u64 << 32) + top + 1);
+    for t in types {
         for dl in [0usize, 1, 31, 32, 33, 64] {
             let mut data = key.clone();
             data.resize(dl, 7);
